@@ -438,7 +438,8 @@ func totalOtlStructured(r *Rng) []totalOtlTab {
 	add("cd1-all-0", totalOtlCd1(10, 4, 0, 0, 0, 0))
 	add("cd1-start0", totalOtlCd1(0, 3, 4, 4, 5))
 
-	// ---- classdef format 2 zigzag: (1, 65534, c), (65535, 0, c) repeated
+	// ---- classdef format 2 zigzag: (1, 65534, c), (65535, 0, c) repeated (finding #36; since the
+	// repair classdef.Read rejects the range with end < start: err:invalid on both sides)
 	for n := 1; n <= 3; n++ {
 		var same, diff []rg
 		for k := 1; k <= n; k++ {
